@@ -227,6 +227,8 @@ fn run_generic<A: Ar>(seed: u64, run: u64, thorough: bool) -> CorruptOut {
     let mut cfg = gen::gen_cfg(&mut rng, &p);
     cfg.sync = A::SYNC;
     cfg.cap = cfg.cap.min(1024);
+    // the fault cases below edit the file at absolute positions: mapping offset 0
+    cfg.offset = 0;
     let Some(base) = make_base::<A>(cfg, seed, run, &path) else {
         out.skipped = true;
         let _ = std::fs::remove_file(&path);
